@@ -304,7 +304,9 @@ def build_harness(version, race=False):
     """Copy the harness module to .work (so tracked files are never rewritten by the go tool), point its
     replace directive at REPO and build the test binary from REPO's current working tree with -tags verif."""
     src = os.path.join(VERIF, "harness", version)
-    dst = os.path.join(WORK, "build", "harness-" + version)
+    # per-process build directory and binary: several checks may run at the same time
+    dst = os.path.join(WORK, "build", "harness-%s-%d" % (version, os.getpid()))
+    _cleanup.append(dst)
     shutil.rmtree(dst, ignore_errors=True)
     shutil.copytree(src, dst)
     common = os.path.join(VERIF, "harness", "common")
@@ -315,7 +317,8 @@ def build_harness(version, race=False):
     gomod = re.sub(r"=> /repo(/v2)?", "=> " + repo_mod, gomod)
     open(os.path.join(dst, "go.mod"), "w").write(gomod)
     shutil.copy(os.path.join(repo_mod, "go.sum"), os.path.join(dst, "go.sum"))
-    binary = os.path.join(WORK, "build", "h-%s%s.test" % (version, "-race" if race else ""))
+    binary = os.path.join(WORK, "build", "h-%s%s-%d.test" % (version, "-race" if race else "", os.getpid()))
+    _cleanup.append(binary)
     cmd = [GO, "test", "-c", "-tags", "verif", "-o", binary]
     if race:
         cmd.append("-race")
@@ -453,6 +456,20 @@ def write_evidence(pid, tier, seed, coverage, assumptions, wall, violations):
           "assumptions": assumptions, "wall_s": round(wall, 2), "violations": violations}
     json.dump(ev, open(os.path.join(EVIDENCE, pid + ".json"), "w"), indent=1, default=str)
 
+
+_cleanup = []
+
+
+def _remove_build_output():
+    for path in _cleanup:
+        if os.path.isdir(path):
+            shutil.rmtree(path, ignore_errors=True)
+        elif os.path.exists(path):
+            os.remove(path)
+
+
+import atexit  # noqa: E402
+atexit.register(_remove_build_output)
 
 TRUSTED_BASE = [
     "Coq 8.16.1 kernel (coqc; vm_compute used, native_compute not used); coqchk in the thorough tier",
